@@ -221,11 +221,12 @@ type PostChecker interface {
 // Env
 
 type Env struct {
-	RT    *zsimrt.Run
-	Case  *Case
-	Cfg   SchedCfg
-	Start time.Time
-	Res   *Result
+	wokePending bool // a runnable goroutine sits at a post-wake point (drawJitter)
+	RT          *zsimrt.Run
+	Case        *Case
+	Cfg         SchedCfg
+	Start       time.Time
+	Res         *Result
 
 	rng     *Rng    // schedule policy stream (generate mode)
 	replay  []int64 // replay tape (replay mode)
@@ -403,6 +404,12 @@ func (e *Env) drawJitter() time.Duration {
 		if maxJ < 1 {
 			maxJ = 1
 		}
+		if e.wokePending && e.rng.Intn(2) == 0 {
+			// somebody has just been woken (a timer, a channel) and waits to be run: the time a
+			// woken goroutine waits for a processor is long compared with the time between two
+			// statements - whatever is due in the meantime becomes due before it goes on
+			return 1 + e.rng.I64n(maxJ)
+		}
 		switch e.rng.Intn(10) {
 		case 0:
 			return 1 + e.rng.I64n(maxJ)
@@ -552,6 +559,12 @@ func (e *Env) Loop(w World) {
 			e.Inconclusive("step budget exhausted")
 			break
 		}
+		e.wokePending = false
+		for _, x := range P {
+			if strings.HasSuffix(x.Point, "+woke") {
+				e.wokePending = true
+			}
+		}
 		g, sel := e.choose(P)
 		if g.Name != e.last && e.last != "" {
 			// preemptive switch iff the previous goroutine is still runnable
@@ -637,6 +650,9 @@ func execute(c *Case, w World, runSeed uint64, replayTape []int64, replay bool, 
 	res.OpsDone = e.OpsDone
 	res.SchedHash = e.sh.h
 	res.MapChecks = e.RT.MapChecks
+	if e.RT.StopsAfterFire > 0 {
+		res.Probes["timer_stopped_after_it_had_fired"] += e.RT.StopsAfterFire
+	}
 	res.TraceHash = fmt.Sprintf("%016x", e.th.h^e.sh.h)
 	// from here on goroutines are torn down: whatever they still report
 	// (errors from closed pipes, aborted waits) is not part of the run
